@@ -662,6 +662,32 @@ struct FileWriterMatrix : Family {
 			}
 			ctx.event("open " + std::to_string(flags) + (exists ? " e " : " n ") + (refuse ? "refused" : "ok"));
 		}
+		// two appending writers alive on ONE path at the same time, their writes and closes in a seeded order: Append means every byte
+		// written goes to the end of the file, so nothing either of them wrote may be lost or overwritten (which of the two lands
+		// first depends on when each flushes, which the flags do not say: both orders are accepted)
+		if (!plan.ops.empty()) {
+			disk::wipe();
+			ctx.setOp(plan.ops.size() - 1);
+			uint64_t sd = plan.seed;
+			std::vector<uint8_t> old = prngBytes(sd ^ 0xa1, static_cast<size_t>(sd % 50)), A = prngBytes(sd ^ 0xa2, 1 + static_cast<size_t>(sd % 37)), B = prngBytes(sd ^ 0xa3, 1 + static_cast<size_t>((sd >> 8) % 41));
+			bool exists = (sd >> 16) & 1;
+			if (exists) disk::put("pair.bin", old); else old.clear();
+			FW::OpenMode mode = static_cast<FW::OpenMode>(static_cast<unsigned>(FW::CanOpenExisting) | static_cast<unsigned>(FW::CanOpenNew) | static_cast<unsigned>(FW::Append));
+			std::string what;
+			Out o = callLib(plan, [&] {
+				auto w1 = std::make_unique<FW>("pair.bin", mode);
+				auto w2 = std::make_unique<FW>("pair.bin", mode);
+				if ((sd >> 17) & 1) { w1->Write(A.data(), A.size()); w2->Write(B.data(), B.size()); } else { w2->Write(B.data(), B.size()); w1->Write(A.data(), A.size()); }
+				if ((sd >> 18) & 1) { w1.reset(); w2.reset(); } else { w2.reset(); w1.reset(); }
+			}, &what);
+			if (o != OkOut) ctx.fail("C14.open-matrix", "two appending FileWriters on one path: open/write failed: " + what);
+			std::vector<uint8_t> got, ab(old), ba(old);
+			disk::get("pair.bin", got);
+			ab.insert(ab.end(), A.begin(), A.end()); ab.insert(ab.end(), B.begin(), B.end());
+			ba.insert(ba.end(), B.begin(), B.end()); ba.insert(ba.end(), A.begin(), A.end());
+			if (got != ab && got != ba) ctx.fail("C14.open-matrix", "two appending FileWriters alive on one path (" + std::to_string(old.size()) + " old bytes, " + std::to_string(A.size()) + " and " + std::to_string(B.size()) + " bytes appended): the file holds " + std::to_string(got.size()) + " bytes and is neither old+A+B nor old+B+A");
+			ctx.count("probe.two_appenders_on_one_path");
+		}
 		ctx.nontrivial = any;
 		ctx.count("library_calls", plan.ops.size() * 3);
 	}
